@@ -37,9 +37,26 @@ def run(tier="quick", seed=0):
                 viol.append({"id": n.name, "clause": "analyser_false_effect", "why": "%s modifies only %s; reported %s" % (n.name, sorted(want), sorted(got)), "inputs": {"function": n.name}})
             if len(samples) < 4:
                 samples.append({"function": n.name, "modifies": sorted(want), "reported": sorted(got)})
+        from pyvc.frames import check_owned
+        for n in tree.body:
+            if not isinstance(n, ast.ClassDef):
+                continue
+            m = re.search(r"# SHARES:(.*)$", lines[n.lineno - 1])
+            if m is None:
+                continue
+            want = set(x.strip() for x in m.group(1).split(",") if x.strip())
+            r = check_owned("specs/_frames_samples.py::%s.__init__" % n.name, ("args", "hooks"))
+            got = set(r["shared"]) | set(r["missing"])
+            ev += 1
+            if r["error"]:
+                viol.append({"id": n.name, "clause": "analyser_error", "why": r["error"], "inputs": {"class": n.name}})
+            elif want - got:
+                viol.append({"id": n.name, "clause": "analyser_misses_a_shared_object", "why": "%s keeps the caller's %s; reported %s" % (n.name, sorted(want), sorted(got)), "inputs": {"class": n.name}})
+            elif got - want:
+                viol.append({"id": n.name, "clause": "analyser_false_sharing", "why": "%s keeps only the caller's %s; reported %s" % (n.name, sorted(want), sorted(got)), "inputs": {"class": n.name}})
     finally:
         sys.setrecursionlimit(old)
     return {"name": "frames_selftest", "evaluations": ev, "distinct_nontrivial": ev,
-            "rule": "every function of specs/_frames_samples.py (direct / aliased / through-callee / through-closure / container-method / library effects, shallow and deep copies, flag-guarded copies, new objects in work queues, mutable default arguments): reported effects == declared effects",
+            "rule": "every function of specs/_frames_samples.py (direct / aliased / through-callee / through-closure / container-method / library effects, shallow and deep copies, flag-guarded copies, new objects in work queues, mutable default arguments): reported effects == declared effects; every class with a `# SHARES:` comment (ownership of what a constructor stores: copies, the given object, the given object on one path, copies made in a helper): attributes reported as the caller's own == declared",
             "bound": "%d sample functions" % ev, "exhaustive": True, "label": "bounded", "samples": samples, "violations": viol[:6],
             "seconds": round(time.time() - t0, 2)}
